@@ -444,6 +444,7 @@ pub fn decode_sd(data: &[u8], with_fault: bool) -> SdCase {
         stop_gap: false,
         sticky_status: false,
         nwr_gap: false,
+        nrc_gap: false,
     };
     let mut timing = timing;
     let use_crc = d.bool();
@@ -517,6 +518,7 @@ pub fn decode_sd(data: &[u8], with_fault: bool) -> SdCase {
         timing.stop_gap = d.bool();
         timing.sticky_status = d.bool();
         timing.nwr_gap = d.bool();
+        timing.nrc_gap = d.bool();
     }
     let bg_seed = match d.u8() % 8 {
         1 => 0,
